@@ -14,6 +14,9 @@ THEOREMS = [
     "MM.default_label_honoured",
     "MM.nexch_counter",
     "MM.not_accepted_keeps_labels",
+    "MM.ginv_trial",
+    "MM.gc_history",
+    "MM.fixedOK_delete",
     "MM.composite_insertion_shares_label",
     "MM.notifyRefs_spec",
     "MM.onAtomsChanged_length",
